@@ -106,6 +106,8 @@ type H struct {
 	sinceRead int
 	seen      map[string]int
 
+	All    []*Node       // every node created, All[id-1]
+
 	States map[int32]int // stack-top states seen at taps
 	Meths  map[int]int   // methods called
 }
@@ -225,6 +227,7 @@ func (h *H) Act(m int, args ...any) *Node {
 	h.Acts++
 	h.LastID++
 	n := &Node{ID: h.LastID, M: m}
+	h.All = append(h.All, n)
 	for _, a := range args {
 		if t := firstTok(a); t.Seq != 0 {
 			n.First = t
@@ -292,6 +295,14 @@ func (h *H) Act(m int, args ...any) *Node {
 		h.Events = append(h.Events, ev)
 	}
 	return n
+}
+
+// NodeByID returns the node with the given id (nil for 0 or unknown ids).
+func (h *H) NodeByID(id int) *Node {
+	if id <= 0 || id > len(h.All) {
+		return nil
+	}
+	return h.All[id-1]
 }
 
 // Bounds is called by _onBounds.
